@@ -476,6 +476,11 @@ pub fn run() {
         found.extend(vio);
     }
     handler_level(&mut rep, &mut found);
+    // nodes built from caller-supplied sockets
+    let (fs_cases, fs_skipped, fs_vio) = crate::ssim::c12_from_sockets();
+    rep.set("from_sockets_cases", fs_cases);
+    rep.set("from_sockets_cases_skipped_no_loopback", fs_skipped);
+    found.extend(fs_vio);
     // the same handler-level clause on every `Established(Incoming)` of the attacker worlds
     let (ast, avio, _) = crate::attack::explore("C12", thorough, mc::budget(thorough, 20.0, 0.2), if thorough { 3 } else { 2 });
     rep.set("attacker_worlds_states", ast.states);
